@@ -188,7 +188,20 @@ def streams(rng, tier):
         alloc = "alloc" in feats or "std" in feats
         half = "half" in feats
         o = [op for op in ops if exists(op, half)]
-        st = Stream("cfg-" + name, cfg_bin(name), o, model_ops=[model_op(op, alloc, half) for op in o],
+        def judge_cfg(op, impl, model, spec, alloc=alloc):
+            if impl == model:
+                return "ok"
+            w = op.split(" ")
+            # documented difference: without alloc, skip() may refuse an indefinite array/map nested in a definite one
+            # (C06.noalloc_lockstep: the no-alloc skip equals the alloc skip or answers `err message`).  Typed decodes use
+            # skip() for ignored items; the model of typed decoding is the alloc one, so this answer is accepted there
+            # when the input does contain an indefinite array/map head.
+            if not alloc and w[1].startswith("t:") and impl.startswith("err message"):
+                hx = w[2]
+                if any(hx[i:i + 2] in ("9f", "bf") for i in range(0, len(hx), 2)):
+                    return "ok"
+            return "corr"
+        st = Stream("cfg-" + name, cfg_bin(name), o, model_ops=[model_op(op, alloc, half) for op in o], judge=judge_cfg,
                     rule=f"configuration {name} (alloc={alloc}, half={half}) against the model at that configuration")
         st.shrinkable = False
         out.append(st)
